@@ -18,6 +18,7 @@ TReset == /\ IsEv("SReset") /\ Consume
 TNew == IsEv("New") /\ Consume /\ SvcNew
 TCall == IsEv("Call") /\ Consume /\ OpCall(Ev.id, Ev.op, Ev.key, Ev.val)
 TRet == IsEv("Ret") /\ Consume /\ OpRet(Ev.id, MapOf(Ev.res))
+TCancel == IsEv("Cancel") /\ Consume /\ OpCancel(Ev.id)
 TLin == (\E id \in DOMAIN pendOps : Lin(id)) /\ UNCHANGED l
 THStart == IsEv("HStart") /\ Consume /\ HStart
 THEnd == IsEv("HEnd") /\ Consume /\ HEnd
@@ -27,7 +28,7 @@ TDtorE == IsEv("DtorEnd") /\ Consume /\ DtorEnd
 \* initialisation with an unusable socket path must fail cleanly (exception), never corrupt memory
 TInitResult == IsEv("InitResult") /\ Consume /\ (Ev.usable = Ev.ok) /\ UNCHANGED ssv
 TEnd == IsEv("SEnd") /\ Consume /\ pendOps = <<>> /\ UNCHANGED ssv
-TraceNext == TReset \/ TNew \/ TCall \/ TRet \/ TLin \/ THStart \/ THEnd \/ TSaw \/ TDtorB \/ TDtorE \/ TInitResult \/ TEnd
+TraceNext == TReset \/ TNew \/ TCancel \/ TCall \/ TRet \/ TLin \/ THStart \/ THEnd \/ TSaw \/ TDtorB \/ TDtorE \/ TInitResult \/ TEnd
 TraceSpec == TraceInit /\ [][TraceNext]_tvars
 TraceProgress == TLCSet(1, IF TLCGet(1) < l THEN l ELSE TLCGet(1))
 TraceAccepted == /\ PrintT(<<"MAXL", TLCGet(1), "OF", N>>) /\ TLCGet(1) = N + 1
